@@ -7,6 +7,7 @@ import (
 	"strings"
 
 	"github.com/CloudyKit/jet/v6"
+	"verifh/internal/hook"
 )
 
 // ---------- realisation of model values as Go data ----------
@@ -130,7 +131,39 @@ type Observed struct {
 	Panic     interface{}
 	ProbeLog  []string
 	VarsAfter map[string]string // rendered values of the caller's VarMap after Execute
-	States    []interface{}     // hook snapshots taken by stateProbe calls
+	// StateEvents: snapshots taken by sp(id, "b"|"a") calls, in execution order.
+	StateEvents []StateEvent
+}
+
+// StateEvent is one interpreter-state snapshot (verif hook VerifProbe).
+type StateEvent struct {
+	ID    string
+	After bool
+	State hook.State
+}
+
+// StateMismatches pairs every "after" snapshot with the latest unmatched "before" snapshot of the same id
+// (constructs that failed in between leave unmatched "before" events, which are dropped) and returns a
+// description of every pair that differs.
+func (o Observed) StateMismatches() []string {
+	var stack []StateEvent
+	var out []string
+	for _, e := range o.StateEvents {
+		if !e.After {
+			stack = append(stack, e)
+			continue
+		}
+		for i := len(stack) - 1; i >= 0; i-- {
+			if stack[i].ID == e.ID {
+				if stack[i].State != e.State {
+					out = append(out, fmt.Sprintf("%s: before %+v, after %+v", e.ID, stack[i].State, e.State))
+				}
+				stack = stack[:i]
+				break
+			}
+		}
+	}
+	return out
 }
 
 // RunOpts configures a real execution.
@@ -182,6 +215,11 @@ func (p *Program) Run(o RunOpts) (obs Observed) {
 		log = append(log, e)
 		return "‹" + id + "›"
 	})
+	vars.SetFunc("sp", func(a jet.Arguments) reflect.Value {
+		id, kind := fmt.Sprint(a.Get(0).Interface()), fmt.Sprint(a.Get(1).Interface())
+		obs.StateEvents = append(obs.StateEvents, StateEvent{ID: id, After: kind == "a", State: hook.Probe(a.Runtime())})
+		return reflect.ValueOf("")
+	})
 	for k, v := range o.ExtraVars {
 		vars.Set(k, v)
 	}
@@ -193,7 +231,7 @@ func (p *Program) Run(o RunOpts) (obs Observed) {
 		obs.ProbeLog = log
 		obs.VarsAfter = map[string]string{}
 		for k, v := range vars {
-			if k == "probe" {
+			if k == "probe" || k == "sp" {
 				continue
 			}
 			if _, extra := o.ExtraVars[k]; extra {
